@@ -36,6 +36,8 @@ type Case struct {
 	Kind  string `json:"kind"` // immediate | buffered
 	// CheckEvery: re-verify all held slices after every k scans (1 = every scan)
 	CheckEvery int `json:"check_every"`
+	// NoCB: no OnError callback is registered; a read error must end the stream all the same
+	NoCB bool `json:"no_callback,omitempty"`
 }
 
 var errEIO = errors.New("injected EIO")
@@ -125,9 +127,10 @@ func runCase(c *run.Ctx, cs *Case, fpPrefix string) bool {
 	rd := &scripted{data: data, steps: cs.Steps}
 	var sc readahead.Scanner
 	ok := true
+	again := false
 	fail := func(class, msg string) {
 		ok = false
-		c.Violation(fpPrefix+class+":"+run.Hash64(cs.Data, fmt.Sprint(cs.Steps), fmt.Sprint(cs.Buf), cs.Kind), msg, cs)
+		c.Violation(fpPrefix+class+":"+run.Hash64(cs.Data, fmt.Sprint(cs.Steps), fmt.Sprint(cs.Buf), cs.Kind, fmt.Sprint(cs.NoCB)), msg, cs)
 	}
 	p, val, stack := run.Guard(func() {
 		if cs.Kind == "buffered" {
@@ -137,7 +140,9 @@ func runCase(c *run.Ctx, cs *Case, fpPrefix string) bool {
 		}
 		errCalls := 0
 		var errSeen []error
-		sc.OnError(func(e error) { errCalls++; errSeen = append(errSeen, e) })
+		if !cs.NoCB {
+			sc.OnError(func(e error) { errCalls++; errSeen = append(errSeen, e) })
+		}
 		var hold mon.Hold
 		scans := 0
 		for sc.Scan() {
@@ -203,6 +208,10 @@ func runCase(c *run.Ctx, cs *Case, fpPrefix string) bool {
 		wantCalls := 0
 		if termErr == "EIO" || termErr == "UNEXPECTED" {
 			wantCalls = 1
+			if cs.NoCB {
+				wantCalls = 0
+				c.Count("error_cases_without_callback", 1)
+			}
 		}
 		if errCalls != wantCalls {
 			fail("onerror", fmt.Sprintf("OnError called %d times, expected %d (terminal result %q)", errCalls, wantCalls, termErr))
@@ -220,10 +229,18 @@ func runCase(c *run.Ctx, cs *Case, fpPrefix string) bool {
 		c.Count("reads_served", int64(rd.reads))
 		if wantCalls == 1 {
 			c.Count("error_cases", 1)
+			again = true
 		}
 	})
 	if p {
 		fail("panic", fmt.Sprintf("panic: %v\n%s", val, stack))
+	}
+	if ok && again {
+		// the same stream without a registered callback: "ends the stream, bytes read before it are delivered" does not
+		// depend on anybody listening for the error
+		cs2 := *cs
+		cs2.NoCB = true
+		return runCase(c, &cs2, fpPrefix)
 	}
 	return ok
 }
